@@ -242,3 +242,24 @@ func VerifC12_ConcurrentRegistrations() {
 	store.Cancel()
 	verif.Assert("cancel_invokes_every_registered_function", calledA == 1 && calledB == 1)
 }
+
+// VerifC12_ParentCancelledWithCause: the parent context is cancelled with a
+// cause (context.WithCancelCause), before the call or while the action runs:
+// the runner still reports the 'cancelled' kind, not the cause.
+func VerifC12_ParentCancelledWithCause() {
+	parent, cancelWithCause := context.WithCancelCause(context.Background())
+	defer cancelWithCause(nil)
+	before := verif.Bool("cancelledBeforeTheCall")
+	if before {
+		cancelWithCause(errVerifAction)
+	}
+	started := false
+	err := RunActionWithTimeoutAndContext(parent, 5*vTimeout, func(ctx context.Context) error {
+		started = true
+		cancelWithCause(errVerifAction)
+		<-ctx.Done()
+		return ctx.Err()
+	})
+	verif.Assert("cancelled_parent_reported", err != nil && commonerrors.Any(err, commonerrors.ErrCancelled))
+	verif.Assert("not_started_when_already_cancelled", !before || !started)
+}
